@@ -1,12 +1,14 @@
 (* driver for the BatchRPC model (C18): reads the event log of harness/go/ov_batchrpc/.../batchrpc on stdin.
    Per scenario it (1) evaluates the extracted monitor predicates on what every caller observed
-   (black box: identity, exactly-once return, not later than 20x the time-out, no panic), and
-   (2) for single-connection scenarios replays the white-box events through the extracted transition
-   function `step` (trace inclusion: every observed event must be an enabled step of the model; the
-   model's return values and in-flight table must equal the observed ones).
+   (black box: identity, exactly-once return, not later than 20x the time-out / completion in the drain phase,
+   no unexpected panic), and (2) for single-connection scenarios replays the white-box events -- per store
+   (connection pool) -- through the extracted transition function `xstep` of the builder/send-loop/async layer
+   over the core `step` (trace inclusion: every observed event must be an enabled step of the model; builder rounds
+   (ids, priorities, leftovers), return values, the in-flight table after every dispatched response batch, at stream
+   re-creation and at quiescence, and the canceled flags must equal the model's).
    Output:  ORACLE <sc> <oracle> <detail>       a monitor predicate failed on the implementation
             REJECT <sc> <oracle> <evno> <reason> <event>   the trace is not a run of the model
-            ACCEPT <sc> <steps>   /  BLACKBOX <sc> <callers>   /  STATS k=v ...  / SAMPLE ...        *)
+            ACCEPT <sc> <steps>   /  BLACKBOX <sc> <failures>   /  STATS k=v ...                          *)
 
 let ios s = try int_of_string s with _ -> -999
 let nat i = nat_of_int i
@@ -14,7 +16,11 @@ let lbl_name = function
   | Submit _ -> "Submit" | Build _ -> "Build" | DropCanceled _ -> "DropCanceled" | NoConn _ -> "NoConn"
   | InitFail _ -> "InitFail" | Store _ -> "Store" | FailSent _ -> "FailSent" | RecvLoad _ -> "RecvLoad"
   | RecvFinish _ -> "RecvFinish" | StreamFail _ -> "StreamFail" | Abort _ -> "Abort" | Return _ -> "Return"
-  | Close -> "Close" | Restart -> "Restart"
+  | Close -> "Close" | Restart -> "Restart" | RecvPanic _ -> "RecvPanic" | FailPanic _ -> "FailPanic"
+  | CloseFail _ -> "CloseFail" | QueueFail _ -> "QueueFail"
+let xlbl_name = function
+  | XSubmit _ -> "XSubmit" | XFetch _ -> "XFetch" | XBuildRound _ -> "XBuildRound" | XClean -> "XClean"
+  | XNoConn -> "XNoConn" | XSendExit -> "XSendExit" | XCore l -> lbl_name l
 
 exception Reject of string * string (* oracle, reason *)
 
@@ -22,28 +28,47 @@ let parse_pairs s = (* "id:pay,id:pay" *)
   if s = "" then [] else
   List.map (fun x -> match String.split_on_char ':' x with
     | [a; b] -> (ios a, ios b) | _ -> (-999, -999)) (String.split_on_char ',' s)
+let parse_triples s = (* "a:b:c,..." *)
+  if s = "" then [] else
+  List.filter_map (fun x -> match String.split_on_char ':' x with
+    | [a; b; c] -> Some (ios a, ios b, ios c) | _ -> None) (String.split_on_char ',' s)
+let after_eq s = match String.index_opt s '=' with Some i -> String.sub s (i + 1) (String.length s - i - 1) | None -> s
+let has_prefix p s = String.length s >= String.length p && String.sub s 0 (String.length p) = p
 
 type sc = { id : string; spec : string; mutable evs : string list list }
 
 let counts = Hashtbl.create 64
 let bump k n = Hashtbl.replace counts k (n + (try Hashtbl.find counts k with Not_found -> 0))
 
-let conns_of spec =
+let spec_int key spec dflt =
   try
-    let re = Str.regexp "\"conns\":\\([0-9]+\\)" in
+    let re = Str.regexp ("\"" ^ key ^ "\":\\([0-9]+\\)") in
     ignore (Str.search_forward re spec 0); ios (Str.matched_group 1 spec)
-  with Not_found -> 1
+  with Not_found -> dflt
+let conns_of spec = spec_int "conns" spec 1
+let pools_of spec = max 1 (spec_int "pools" spec 1)
+let nobatch_of spec = try ignore (Str.search_forward (Str.regexp_string "\"nobatch\":true") spec 0); true with Not_found -> false
 let class_of spec =
   try
     let re = Str.regexp "\"class\":\"\\([a-z]+\\)\"" in
     ignore (Str.search_forward re spec 0); Str.matched_group 1 spec
   with Not_found -> "?"
 
+(* the tag of a pool-specific event is "TAG" for store 0 and "TAG@k" for store k *)
+let split_tag t = match String.index_opt t '@' with
+  | Some i -> (String.sub t 0 i, ios (String.sub t (i + 1) (String.length t - i - 1)))
+  | None -> (t, 0)
+
 (* ---------------------------------------------------------------- black-box monitor *)
 let blackbox (s : sc) =
   let subs = Hashtbl.create 64 and rets = Hashtbl.create 64 in
   let fails = ref 0 in
   let oracle name detail = incr fails; Printf.printf "ORACLE\t%s\t%s\t%s\n" s.id name detail in
+  let badids = ref 0 in
+  List.iter (fun e -> match e with
+    | t :: _ :: _ :: _ :: pairs :: _ when fst (split_tag t) = "RV" ->
+        List.iter (fun (_, p) -> if p = -9 then incr badids) (parse_pairs pairs)
+    | _ -> ()) s.evs;
   List.iter (fun e -> match e with
     | "SUB" :: c :: _ -> Hashtbl.replace subs (ios c) true
     | "RET" :: c :: kind :: p :: late :: _ ->
@@ -55,10 +80,12 @@ let blackbox (s : sc) =
     | "HARNESS" :: r -> oracle "harness" (String.concat " " r)
     | "END" :: rest ->
         let n = List.length rest in
-        if n >= 4 then begin
-          let pr = List.nth rest (n - 4) and ps = List.nth rest (n - 3) and ps2 = List.nth rest (n - 2) in
-          let inj = ios (List.nth rest (n - 1)) in (* send-loop panics injected through the repo's failpoint *)
-          if pr <> "0" then oracle "no_panic" ("batchRecvLoop recovered " ^ pr ^ " panic(s)");
+        if n >= 5 then begin
+          let pr = List.nth rest (n - 5) and ps = List.nth rest (n - 4) and ps2 = List.nth rest (n - 3) in
+          let inj = ios (List.nth rest (n - 2)) and injr = ios (List.nth rest (n - 1)) in
+          (* panics injected through the repo's failpoints / through response batches with an id lacking its response *)
+          if int_of_float (float_of_string pr) > injr + !badids then
+            oracle "no_panic" (Printf.sprintf "batchRecvLoop recovered %s panic(s), %d injected" pr (injr + !badids));
           if ios ps > inj || ios ps2 > inj || ios ps < 0 then
             oracle "no_panic" (Printf.sprintf "batchSendLoop recovered %s/%s panic(s), %d injected" ps ps2 inj)
         end
@@ -73,8 +100,8 @@ let blackbox (s : sc) =
       then oracle "exactly_once" (Printf.sprintf "caller %d has no RET event" c)
     end;
     List.iter (fun (kind, p, late) ->
-      let r = if kind = "ok" then Some (Resp (nat (max p 0))) else if String.length kind >= 2 && String.sub kind 0 2 = "ok" then None else Some (Err EStream) in
-      bump ("ret:" ^ (if String.length kind > 4 && String.sub kind 0 4 = "fail" then "fail" else kind)) 1;
+      let r = if kind = "ok" then Some (Resp (nat (max p 0))) else if has_prefix "ok" kind then None else Some (Err EStream) in
+      bump ("ret:" ^ (if has_prefix "fail" kind then "fail" else kind)) 1;
       (match r with
        | None -> oracle "own_response" (Printf.sprintf "caller %d got a response of another request type (%s)" c kind)
        | Some r ->
@@ -84,55 +111,61 @@ let blackbox (s : sc) =
       if late then oracle "bounded_by_timeout" (Printf.sprintf "caller %d returned later than 20x its time-out" c)) rs) subs;
   !fails
 
-(* ---------------------------------------------------------------- white-box acceptor *)
-let whitebox (s : sc) =
-  let evs = Array.of_list s.evs in
-  (* all (id, caller) pairs ever handed to Send, in id order: the order of allocation *)
-  let allpairs = ref [] in
-  Array.iter (fun e -> match e with
-    | "SB" :: _ :: _ :: _ :: pairs :: _ -> allpairs := parse_pairs pairs @ !allpairs
+(* ---------------------------------------------------------------- white-box acceptor (one store) *)
+let whitebox (scid : string) (label : string) (evl : string list list) =
+  let evs = Array.of_list evl in
+  let n_ev = Array.length evs in
+  (* look-ahead tables: in which ROUND a caller is built, what a caller returns *)
+  let built_at = Hashtbl.create 64 and ret_kind = Hashtbl.create 64 in
+  let maxid = ref 0 and round_idx = ref [] in
+  Array.iteri (fun i e -> match e with
+    | "ROUND" :: _ :: b :: _ ->
+        round_idx := i :: !round_idx;
+        List.iter (fun (id, c, _) -> maxid := max !maxid id; if not (Hashtbl.mem built_at c) then Hashtbl.replace built_at c i) (parse_triples (after_eq b))
+    | "SB" :: _ :: _ :: _ :: pairs :: _ -> List.iter (fun (id, _) -> maxid := max !maxid id) (parse_pairs pairs)
+    | "RET" :: c :: kind :: _ -> if not (Hashtbl.mem ret_kind (ios c)) then Hashtbl.replace ret_kind (ios c) kind
     | _ -> ()) evs;
-  let allpairs = List.stable_sort (fun (a, _) (b, _) -> compare a b) (List.rev !allpairs) in
-  let maxid = List.fold_left (fun m (i, _) -> max m i) 0 allpairs in
-  let known = Hashtbl.create 64 in
-  List.iter (fun (i, _) -> Hashtbl.replace known i true) allpairs;
+  let failpanic = Array.exists (fun e -> match e with "INJ" :: "failpanic" :: _ -> true | _ -> false) evs in
   let unk = Hashtbl.create 8 in
-  let map_id i = if Hashtbl.mem known i then i else
-      (match Hashtbl.find_opt unk i with Some j -> j | None -> let j = maxid + 1 + Hashtbl.length unk in Hashtbl.replace unk i j; j) in
-  let st = ref init and steps = ref 0 in
-  let cur = ref 0 in
+  let map_id i = if i <= !maxid then i else
+      (match Hashtbl.find_opt unk i with Some j -> j | None -> let j = !maxid + 1 + Hashtbl.length unk in Hashtbl.replace unk i j; j) in
+  let xs = ref xinit and steps = ref 0 and cur = ref 0 in
+  let st () = core !xs in
   let apply oracle l =
-    match step !st l with
-    | Some s' -> st := s'; incr steps; bump ("step:" ^ lbl_name l) 1
-    | None -> raise (Reject (oracle, "model step " ^ lbl_name l ^ " is not enabled")) in
-  let entry c = ent !st (nat c) in
-  let todo = ref allpairs in
-  let build_upto id =
-    let rec go () = match !todo with
-      | (i, c) :: r when i <= id ->
-          if c < 0 then raise (Reject ("own_response", Printf.sprintf "request under id %d carries an undecodable payload" i));
-          todo := r;
-          (match step !st (Build (nat c, nat i)) with
-           | Some s' -> st := s'; incr steps; bump "step:Build" 1
-           | None -> raise (Reject ("ids_fresh", Printf.sprintf "id %d handed to caller %d is not fresh (next_id=%d) or the caller is not queued" i c (int_of_nat (next_id !st)))));
-          go ()
-      | _ -> () in go () in
+    match xstep !xs l with
+    | Some x' -> xs := x'; incr steps; bump ("step:" ^ xlbl_name l) 1
+    | None -> raise (Reject (oracle, "model step " ^ xlbl_name l ^ " is not enabled")) in
+  let capply oracle l = apply oracle (XCore l) in
+  let entry c = ent (st ()) (nat c) in
+  let in_inb c = memb (nat c) (inb !xs) in
+  let is_async c = asy !xs (nat c) in
   let pending = Hashtbl.create 4 in
   let close_pending = ref false and closed_seen = ref false in
-  let do_close () = if !close_pending then (close_pending := false; apply "exactly_once" Close) in
-  let batches = Hashtbl.create 16 in
-  let must_empty = Hashtbl.create 16 in
-  let id_of_caller = Hashtbl.create 64 in
-  List.iter (fun (i, c) -> if not (Hashtbl.mem id_of_caller c) then Hashtbl.replace id_of_caller c i) allpairs;
-  (* pending h = number of Recv failures of stream h whose recreateStreamingClient has not been replayed yet *)
+  let do_close () = if !close_pending then (close_pending := false; capply "exactly_once" Close) in
+  let batches = Hashtbl.create 16 and must_empty = Hashtbl.create 16 and failed_sent = Hashtbl.create 16 in
+  let pre_aborted = Hashtbl.create 8 and deferred = Hashtbl.create 8 in
+  let max_stored = ref 0 in
   let npending h = try Hashtbl.find pending h with Not_found -> 0 in
   let flush_fail h = if npending h > 0 then begin
-      Hashtbl.replace pending h (npending h - 1); apply "fail_pending" (StreamFail (nat h))
-    end in
+      Hashtbl.replace pending h (npending h - 1); capply "fail_pending" (StreamFail (nat h)) end in
   let model_ids_of_host h =
-    List.sort compare (List.filter_map (fun (i, c) -> if int_of_nat (e_host (ent !st c)) = h then Some (int_of_nat i) else None) (tab !st)) in
+    List.sort compare (List.filter_map (fun (i, c) -> if int_of_nat (e_host (ent (st ()) c)) = h then Some (int_of_nat i) else None) (tab (st ()))) in
+  let ids_str l = String.concat "," (List.map string_of_int l) in
+  let snap_ids snap = List.sort compare (List.filter_map (fun x -> if x = "-" || x = "" || x = "?" then None else Some (ios x)) (String.split_on_char ',' snap)) in
+  let abort_of_kind = function "ctx" -> Some ECtx | "timeout" -> Some ETimeout | "closed" -> Some EClosed | _ -> None in
+  let do_abort c k =
+    if k = EClosed then do_close ();
+    if k = EClosed && is_async c then begin
+      (* an asynchronous call reports "closed" through the sender's re-check / the drain of the channel / the exit of
+         a recv loop, never through a select on batchConn.closed *)
+      (match e_st (entry c) with
+       | Queued -> capply "exactly_once" (QueueFail (nat c))
+       | Stored _ -> capply "exactly_once" (CloseFail (nat c))
+       | _ -> ());
+      if e_comp (entry c) <> [] && e_ret (entry c) = None then capply "exactly_once" (Return (nat c))
+    end else capply "exactly_once" (Abort (nat c, k)) in
   let expect_ret c want =
-    apply "exactly_once" (Return (nat c));
+    capply "exactly_once" (Return (nat c));
     match e_ret (entry c), want with
     | Some (Resp p), `Ok q ->
         if int_of_nat p <> q then raise (Reject ("own_response", Printf.sprintf "caller %d returned payload %d, the model delivers %d" c q (int_of_nat p)))
@@ -140,75 +173,132 @@ let whitebox (s : sc) =
     | Some (Resp _), `Fail -> raise (Reject ("exactly_once", Printf.sprintf "caller %d returned a failure but its channel held a response" c))
     | Some (Err _), `Ok _ -> raise (Reject ("own_response", Printf.sprintf "caller %d returned a response but its entry had been failed" c))
     | None, _ -> raise (Reject ("exactly_once", "no return value")) in
+  let fetch c = if is_queued (e_st (entry c)) && not (in_inb c) then apply "builder" (XFetch (nat c)) in
   let run_event e = match e with
-    | "SUB" :: c :: h :: _ -> apply "exactly_once" (Submit (nat (ios c), nat (ios h)))
+    | "SUB" :: c :: h :: p :: _ :: _ :: mode :: _ ->
+        let a = try ignore (Str.search_forward (Str.regexp_string "async") mode 0); true with Not_found -> false in
+        apply "exactly_once" (XSubmit (nat (ios c), nat (ios h), nat (max 0 (ios p)), a))
+    | "ROUND" :: r :: b :: l :: _ ->
+        bump "rounds" 1;
+        let built = List.sort compare (parse_triples (after_eq b)) and left = parse_triples (after_eq l) in
+        List.iter (fun (i, c, _) -> if c < 0 then raise (Reject ("builder", Printf.sprintf "entry of id %d carries no caller" i))) built;
+        List.iter (fun (_, c, _) -> fetch c) built;
+        List.iter (fun (c, _, _) -> if c >= 0 then fetch c) left;
+        (* entries the builder no longer holds: popped-and-skipped or cleaned because they were cancelled *)
+        let keep = Hashtbl.create 16 in
+        List.iter (fun (_, c, _) -> Hashtbl.replace keep c true) built; List.iter (fun (c, _, _) -> Hashtbl.replace keep c true) left;
+        List.iter (fun c -> let c = int_of_nat c in
+          if not (Hashtbl.mem keep c) && not (e_canceled (entry c)) then begin
+            match (try abort_of_kind (Hashtbl.find ret_kind c) with Not_found -> None) with
+            | Some k when not (k = EClosed && is_async c) -> do_abort c k; Hashtbl.replace pre_aborted c true
+            | _ -> raise (Reject ("builder", Printf.sprintf "caller %d left the builder without being built although its call was not given up" c))
+          end) (inb !xs);
+        apply "builder" XClean;
+        let takes = List.map (fun (_, c, _) -> nat c) built in
+        (match xstep !xs (XBuildRound takes) with
+         | Some x' -> xs := x'; incr steps; bump "step:XBuildRound" 1
+         | None ->
+             if not (round_ok (pri !xs) (inb !xs) takes) then
+               raise (Reject ("builder", Printf.sprintf "round building callers [%s] is not a legal buildWithLimit round: an entry was built that is not in the builder, or an entry of high / higher priority stayed behind (builder holds [%s])"
+                                (ids_str (List.map (fun (_, c, _) -> c) built)) (ids_str (List.map int_of_nat (inb !xs)))))
+             else raise (Reject ("ids_fresh", "a built entry is cancelled / not queued in the model, or the id source went backwards")));
+        List.iter (fun (i, c, h) ->
+          (match e_st (entry c) with
+           | Built j when int_of_nat j = i -> ()
+           | _ -> raise (Reject ("ids_fresh", Printf.sprintf "caller %d was given id %d, the model allocates the next consecutive id (next_id=%d after the round)" c i (int_of_nat (next_id (st ()))))));
+          if int_of_nat (e_host (entry c)) <> h then raise (Reject ("own_response", Printf.sprintf "request of caller %d put in the bucket of host %d" c h))) built;
+        if int_of_nat (next_id (st ())) <> ios r then
+          raise (Reject ("ids_fresh", Printf.sprintf "idAlloc is %s after the round, the model has %d" r (int_of_nat (next_id (st ())))));
+        (* callers that gave up after buildWithLimit had selected them *)
+        List.iter (fun (c, k) -> Hashtbl.remove deferred c; do_abort c k) (Hashtbl.fold (fun c (at, k) a -> if at <= !cur then (c, k) :: a else a) deferred [])
     | "SB" :: conn :: h :: inc :: pairs :: _ ->
         let ps = parse_pairs pairs in
-        build_upto (List.fold_left (fun m (i, _) -> max m i) 0 ps);
         List.iter (fun (i, c) ->
           (match e_st (entry c) with
            | Built j when int_of_nat j = i -> ()
-           | _ -> raise (Reject ("ids_fresh", Printf.sprintf "request of caller %d sent under id %d which the model did not allocate to it" c i)));
+           | _ -> raise (Reject ("ids_fresh", Printf.sprintf "request of caller %d sent under id %d which no builder round allocated to it" c i)));
           if int_of_nat (e_host (entry c)) <> ios h then raise (Reject ("own_response", Printf.sprintf "request of caller %d sent on the stream of host %s" c h));
-          apply "ids_fresh" (Store (nat c))) ps;
+          max_stored := max !max_stored i;
+          capply "ids_fresh" (Store (nat c))) ps;
         Hashtbl.replace batches (conn, h, inc) ps
     | "SE" :: conn :: h :: inc :: "err" :: _ ->
         let ps = try Hashtbl.find batches (conn, h, inc) with Not_found -> [] in
-        List.iter (fun (_, c) -> match e_st (entry c) with Stored _ -> apply "exactly_once" (FailSent (nat c)) | _ -> ()) ps
+        List.iter (fun (i, c) -> Hashtbl.replace failed_sent i true;
+                    match e_st (entry c) with Stored _ -> capply "exactly_once" (FailSent (nat c)) | _ -> ()) ps
     | "RV" :: _ :: h :: _ :: pairs :: _ ->
         let h = ios h in
-        List.iter (fun (i, p) ->
+        (try List.iter (fun (i, p) ->
           let i' = map_id i in
-          (* the caller's abort was logged before this response was read: the dispatch must see canceled = 1 *)
-          (match lookup (nat i') (tab !st) with
-           | Some c when e_canceled (ent !st c) -> Hashtbl.replace must_empty i true
+          (match lookup (nat i') (tab (st ())) with
+           | Some c when e_canceled (ent (st ()) c) -> Hashtbl.replace must_empty i true
            | _ -> ());
-          (match step !st (RecvLoad (nat h, nat i', nat (max p 0))) with
-           | Some s' -> st := s'; incr steps; bump "step:RecvLoad" 1
+          let p = if p = -9 then (match lookup (nat i') (tab (st ())) with Some c -> -10 - int_of_nat c | None -> -9) else p in
+          let pay = if p <= -10 then -10 - p else max p 0 in
+          (match xstep !xs (XCore (RecvLoad (nat h, nat i', nat pay))) with
+           | Some x' -> xs := x'; incr steps; bump "step:RecvLoad" 1
            | None -> raise (Reject ("own_response", Printf.sprintf "response for id %d with payload %d on stream %d is not a dispatch step of the model (foreign payload / wrong stream / loop state)" i p h)));
-          (match loops !st (nat h) with LLoaded _ -> apply "exactly_once" (RecvFinish (nat h)) | _ -> bump "outdated" 1)) (parse_pairs pairs)
-    | "RE" :: _ :: h :: _ -> Hashtbl.replace pending (ios h) (npending (ios h) + 1)
-    | "NSF" :: _ :: h :: _ -> flush_fail (ios h) (* re-creation attempted (and failed): the epoch CAS of this failure has happened *)
+          (match loops (st ()) (nat h) with
+           | LLoaded _ when p <= -10 -> capply "exactly_once" (RecvPanic (nat h)); bump "recv_panics_expected" 1; raise Exit (* the rest of the batch is lost *)
+           | LLoaded _ -> capply "exactly_once" (RecvFinish (nat h))
+           | _ -> bump "outdated" 1)) (parse_pairs pairs) with Exit -> ())
+    | "RD" :: _ :: h :: _ :: snap :: _ when snap <> "?" && not !closed_seen ->
+        (* the recv loop asks for the next message: everything it dispatched has left the table *)
+        let h = ios h in
+        let real = snap_ids snap and model = model_ids_of_host h in
+        bump "table_checks" 1;
+        List.iter (fun i -> if not (List.mem i real) then
+          raise (Reject ("table", Printf.sprintf "id %d of stream %d is in flight in the model but not in `batched` ([%s])" i h (ids_str real)))) model;
+        let retired i = match lookup (nat i) (alloc (st ())) with
+          | Some c -> (match e_st (ent (st ()) c) with Retired -> true | _ -> false)  (* Built: stored, its Send not logged yet *)
+          | None -> false (* allocated in a round whose dump is not logged yet *) in
+        List.iter (fun i -> if not (List.mem i model) && retired i && not (Hashtbl.mem failed_sent i) then
+          raise (Reject ("table", Printf.sprintf "id %d of stream %d is still in `batched` although the model has retired it (dispatched / failed): [%s] vs model [%s]" i h (ids_str real) (ids_str model)))) real
+    | "RE" :: _ :: h :: _ ->
+        let h = ios h in
+        if failpanic && npending h > 0 then
+          (* the previous failure of this stream never reached the re-creation: failPendingRequests panicked *)
+          capply "fail_pending" (FailPanic (nat h))
+        else Hashtbl.replace pending h (npending h + 1)
+    | "NSF" :: _ :: h :: _ -> flush_fail (ios h)
     | "NS" :: _ :: h :: _ :: snap :: _ ->
         let h = ios h in
         if npending h > 0 then begin
           flush_fail h;
-          (* white-box table oracle: the real table restricted to this host, read while the stream is re-created *)
-          let real = List.sort compare (List.filter_map (fun x -> if x = "-" || x = "" || x = "?" then None else Some (ios x)) (String.split_on_char ',' snap)) in
+          let real = snap_ids snap in
           if snap <> "?" && real <> model_ids_of_host h then
             raise (Reject ("fail_pending", Printf.sprintf "after re-creating stream %d the table holds ids [%s] of that host, the model [%s]" h
-                             (String.concat "," (List.map string_of_int real)) (String.concat "," (List.map string_of_int (model_ids_of_host h)))))
+                             (ids_str real) (ids_str (model_ids_of_host h))))
         end
     | "CLOSE" :: _ -> close_pending := true; closed_seen := true
-    | "INJ" :: "sendpanic" :: _ -> apply "ids_fresh" Restart
+    | "INJ" :: "sendpanic" :: _ -> capply "ids_fresh" Restart
     | "RET" :: c :: kind :: p :: _ ->
         let c = ios c in
-        let abort k =
-          (match e_st (entry c) with
-           | Queued when Hashtbl.mem id_of_caller c && not (e_canceled (entry c)) ->
-               (* the request was selected by buildWithLimit before its caller gave up (it is sent later) *)
-               build_upto (Hashtbl.find id_of_caller c)
-           | _ -> ());
-          apply "exactly_once" (Abort (nat c, k)) in
-        (match kind with
+        if Hashtbl.mem pre_aborted c then ()
+        else (match kind with
          | "ok" ->
              if e_comp (entry c) = [] then raise (Reject ("own_response", Printf.sprintf "caller %d returned a response but no dispatch to its entry was observed" c));
              expect_ret c (`Ok (ios p))
-         | "ctx" -> abort ECtx
-         | "timeout" -> abort ETimeout
-         | "closed" -> do_close (); abort EClosed
+         | "ctx" | "timeout" | "closed" ->
+             let k = match abort_of_kind kind with Some k -> k | None -> ECtx in
+             (match e_st (entry c), (try Some (Hashtbl.find built_at c) with Not_found -> None) with
+              | Queued, Some at when at > !cur && not (e_canceled (entry c))
+                                     && not (List.exists (fun r -> r > !cur && r < at) !round_idx) ->
+                  (* buildWithLimit selected the request before its caller gave up (the round is logged right after);
+                     if a whole other round lies in between, the build came after the abort and must skip the entry *)
+                  Hashtbl.replace deferred c (at, k)
+              | _ -> do_abort c k)
          | "fail:init" ->
-             if e_comp (entry c) = [] then apply "exactly_once" (InitFail (nat c));
+             if e_comp (entry c) = [] then capply "exactly_once" (InitFail (nat c));
              expect_ret c `Fail
          | "fail:noconn" ->
-             if e_comp (entry c) = [] then apply "exactly_once" (NoConn (nat c));
+             if e_comp (entry c) = [] then begin fetch c; apply "exactly_once" XNoConn end;
              expect_ret c `Fail
          | "fail:idle" -> ()
-         | k when String.length k >= 4 && String.sub k 0 4 = "fail" ->
+         | k when has_prefix "fail" k ->
              if e_comp (entry c) = [] then begin
                (match e_st (entry c) with
                 | Stored _ -> flush_fail (int_of_nat (e_host (entry c)))
-                | Queued | Built _ -> apply "exactly_once" (InitFail (nat c)) (* stream could not be created (real dial failure) *)
+                | Built _ -> capply "exactly_once" (InitFail (nat c)) (* the stream could not be created (real dial failure) *)
                 | _ -> ())
              end;
              if e_comp (entry c) = [] then raise (Reject ("exactly_once", Printf.sprintf "caller %d returned a failure that no step of the model produces (entry state unchanged)" c));
@@ -220,36 +310,52 @@ let whitebox (s : sc) =
               let i = ios i in
               if canc = "1" && ios buffered > 0 && Hashtbl.mem must_empty i then
                 raise (Reject ("canceled_never_delivered", Printf.sprintf "the entry of id %d was canceled before its response was read from the stream, yet the response was put on its channel" i));
-              (* the canceled flag of every entry that was in flight equals the model's (set exactly by the caller's abort) *)
-              (match lookup (nat i) (alloc !st) with
+              (match lookup (nat i) (alloc (st ())) with
                | Some c ->
-                   let m = e_canceled (ent !st c) in
-                   if m <> (canc = "1") then
+                   let m = e_canceled (ent (st ()) c) in
+                   (* an async entry's context may fire after the call completed (context.AfterFunc): its flag is not compared *)
+                   if m <> (canc = "1") && not (is_async (int_of_nat c)) then
                      raise (Reject ("canceled_never_delivered", Printf.sprintf "entry of id %d (caller %d): canceled flag is %s, the model has %b" i (int_of_nat c) canc m))
                | None -> ())
           | _ -> ()) (String.split_on_char ',' (String.sub l 5 (String.length l - 5)))
     | "END" :: tabs :: sent :: _ ->
         do_close ();
         List.iter (fun h -> while npending h > 0 do flush_fail h done) (Hashtbl.fold (fun h _ a -> h :: a) pending []);
-        if not !closed_seen && String.length tabs >= 4 && String.sub tabs 0 4 = "tab=" then begin
-          let body = String.sub tabs 4 (String.length tabs - 4) in
+        if not !closed_seen && has_prefix "tab=" tabs then begin
+          let body = after_eq tabs in
           let real = List.sort compare (List.filter_map (fun x -> match String.split_on_char ':' x with
               | [_; i; _; _] -> Some (ios i) | _ -> None) (String.split_on_char ',' body)) in
-          let model = List.sort compare (List.map (fun (i, _) -> int_of_nat i) (tab !st)) in
+          let model = List.sort compare (List.map (fun (i, _) -> int_of_nat i) (tab (st ()))) in
           if real <> model then
-            raise (Reject ("table", Printf.sprintf "at quiescence the table holds ids [%s], the model [%s]"
-                             (String.concat "," (List.map string_of_int real)) (String.concat "," (List.map string_of_int model))));
-          let sentv = if String.length sent > 5 then ios (String.sub sent 5 (String.length sent - 5)) else -999 in
+            raise (Reject ("table", Printf.sprintf "at quiescence the table holds ids [%s], the model [%s]" (ids_str real) (ids_str model)));
+          let sentv = if String.length sent > 5 then ios (after_eq sent) else -999 in
           if sentv <> List.length real then
             raise (Reject ("table", Printf.sprintf "at quiescence sent=%d but the table holds %d entries" sentv (List.length real)))
         end
     | _ -> () in
+  ignore n_ev;
   (try
      Array.iteri (fun i e -> cur := i; run_event e) evs;
      bump "traces_accepted" 1; bump "model_steps" !steps;
-     Printf.printf "ACCEPT\t%s\t%d\n" s.id !steps; 0
+     Printf.printf "ACCEPT\t%s%s\t%d\n" scid label !steps; 0
    with Reject (oracle, reason) ->
-     Printf.printf "REJECT\t%s\t%s\t%d\t%s\t%s\n" s.id oracle !cur reason (String.concat " " evs.(!cur)); 1)
+     Printf.printf "REJECT\t%s\t%s\t%d\t%s%s\t%s\n" scid oracle !cur reason label (String.concat " " evs.(!cur)); 1)
+
+(* the events of store k: its own wire/table events (tag suffix stripped), the calls addressed to it, global events *)
+let events_of_pool (s : sc) k =
+  let pool_of = Hashtbl.create 64 in
+  List.iter (fun e -> match e with
+    | "SUB" :: c :: rest -> Hashtbl.replace pool_of c (match List.rev rest with p :: _ when List.length rest >= 6 -> ios p | _ -> 0)
+    | _ -> ()) s.evs;
+  List.filter_map (fun e -> match e with
+    | [] -> None
+    | t :: rest ->
+        let (tag, p) = split_tag t in
+        (match tag with
+         | "NS" | "NSF" | "SB" | "SE" | "RV" | "RE" | "RD" | "ROUND" | "CRES" | "END" -> if p = k then Some (tag :: rest) else None
+         | "SUB" | "RET" | "HANG" | "PANIC" ->
+             (match rest with c :: _ when (try Hashtbl.find pool_of c with Not_found -> 0) = k -> Some e | _ -> None)
+         | _ -> Some e)) s.evs
 
 let () =
   let scs = ref [] and cur = ref None in
@@ -262,18 +368,24 @@ let () =
   let sigs = Hashtbl.create 64 in
   List.iter (fun s ->
     s.evs <- List.rev s.evs;
-    bump "scenarios" 1; bump ("class:" ^ class_of s.spec) 1; bump "events" (List.length s.evs);
+    let cls = class_of s.spec in
+    bump "scenarios" 1; bump ("class:" ^ cls) 1; bump "events" (List.length s.evs);
     let bf = blackbox s in
     Printf.printf "BLACKBOX\t%s\t%d\n" s.id bf;
     let newpool = List.exists (fun e -> match e with "CLOSE" :: "addr" :: _ -> true | _ -> false) s.evs in
-    (* the acceptor models ONE batchCommandsClient: several connections, or a pool re-created after CloseAddr, are black-box only *)
-    let wf = if conns_of s.spec = 1 && not newpool then whitebox s else (bump "blackbox_only" 1; 0) in
-    (* distinct non-trivial: distinct event-kind signatures of scenarios with at least 2 callers and a fault or reorder *)
+    (* the acceptor models ONE batchCommandsClient per store: several connections, a pool re-created after CloseAddr, the
+       non-batch path and the async-calls-racing-with-Close class (an entry failed by the sender's re-check may still be
+       sent by a send loop that has not exited yet) are black-box only *)
+    if conns_of s.spec = 1 && not newpool && not (nobatch_of s.spec) && cls <> "asyncclose" then begin
+      let np = pools_of s.spec in
+      for k = 0 to np - 1 do
+        ignore (whitebox s.id (if np > 1 then Printf.sprintf "@%d" k else "") (if np > 1 then events_of_pool s k else s.evs))
+      done
+    end else bump "blackbox_only" 1;
     let kinds = String.concat "" (List.map (fun e -> match e with
-        | "RET" :: _ :: k :: _ -> "r" ^ String.sub k 0 1 | k :: _ -> String.sub k 0 2 | [] -> "") s.evs) in
+        | "RET" :: _ :: k :: _ -> "r" ^ String.sub k 0 1 | k :: _ -> String.sub k 0 (min 2 (String.length k)) | [] -> "") s.evs) in
     let ncall = List.length (List.filter (fun e -> match e with "SUB" :: _ -> true | _ -> false) s.evs) in
-    if ncall >= 2 then Hashtbl.replace sigs (Digest.string kinds) true;
-    ignore wf) scs;
+    if ncall >= 2 then Hashtbl.replace sigs (Digest.string kinds) true) scs;
   Printf.printf "STATS";
   Hashtbl.iter (fun k v -> Printf.printf "\t%s=%d" k v) counts;
   Printf.printf "\tdistinct=%d\n" (Hashtbl.length sigs)
